@@ -112,6 +112,32 @@ def _yield_belongs(fn, target):
     return walk(fn)
 
 
+def _memo_id(a):
+    """identity of an immutable argument value, or None when it may be mutated"""
+    if a is None or isinstance(a, (bool, int, float, str, bytes)):
+        return ('c', type(a).__name__, a)
+    if isinstance(a, (SInt, SBool)):
+        return ('z', a.z.get_id())
+    if isinstance(a, SStr):
+        out = []
+        for p in a.parts:
+            if isinstance(p, str):
+                out.append(p)
+            elif isinstance(p, Ch):
+                out.append(('ch', p.code.get_id()))
+            else:
+                out.append(('sq', p.z.get_id()))
+        return ('s', tuple(out))
+    if isinstance(a, tuple):
+        ks = tuple(_memo_id(x) for x in a)
+        return None if any(k is None for k in ks) else ('t', ks)
+    if isinstance(a, type):
+        return ('type', id(a))
+    if isinstance(a, SFloat):
+        return ('f', a.name)
+    return None
+
+
 class Env:
     __slots__ = ('vars', 'parent', 'pyglobals', 'func')
 
@@ -168,6 +194,7 @@ class Interp:
         self.nofork = 0
         self.gen_stack = []
         self.cur_exc = []
+        self.spec_depth = 0      # > 0 while evaluating contract clauses / spec functions (pure code)
 
     # ------------------------------------------------------------------ helpers
     def unsupported(self, msg, node=None):
@@ -297,6 +324,39 @@ class Interp:
         if c is not None and not (self.top is not None and key == self.top and self.depth == 0):
             from .verify import apply_contract_at_call
             return apply_contract_at_call(self, c, f, args, kwargs, node)
+        # pure spec functions (defined in contract / spec modules) called again with the very same
+        # immutable arguments give the same value: memoised per path
+        memo_key = None
+        if f.modname in self.config.get('spec_modules', ()) and not kwargs and f.closure is None \
+                and not f.is_generator:
+            ks = []
+            for a in args:
+                k = _memo_id(a)
+                if k is None:
+                    ks = None
+                    break
+                ks.append(k)
+            if ks is not None:
+                memo_key = (f.modname, f.qualname, tuple(ks))
+                memo = self.st.notes.setdefault('spec_memo', {})
+                if memo_key in memo:
+                    return memo[memo_key][0]
+        if memo_key is not None:
+            r = self._call_funcref_body(f, args, kwargs, node)
+            self.st.notes.setdefault('spec_memo', {})[memo_key] = (r, args)
+            return r
+        return self._call_funcref_body(f, args, kwargs, node)
+
+    def _call_funcref_body(self, f, args, kwargs, node=None):
+        if f.modname in self.config.get('spec_modules', ()):
+            self.spec_depth += 1
+            try:
+                return self._call_funcref_body2(f, args, kwargs, node)
+            finally:
+                self.spec_depth -= 1
+        return self._call_funcref_body2(f, args, kwargs, node)
+
+    def _call_funcref_body2(self, f, args, kwargs, node=None):
         env = Env(self.bind_args(f, args, kwargs), parent=f.closure, pyglobals=f.pyglobals, func=f)
         if self.depth > self.MAX_DEPTH:
             self.unsupported(f"call depth > {self.MAX_DEPTH} in {f.qualname}")
@@ -718,11 +778,8 @@ class Interp:
                 new.extend(self.st.notes[key])
                 continue
             L = z3.Length(p.z)
-            m = self.st.model()
-            if m is None:
-                raise Infeasible()
-            n = m.eval(L, model_completion=True).as_long()
-            if not self.st.implied(L == n):
+            n = self.st.forced_int(L)
+            if n is None:
                 self.unsupported("iteration/indexing over a string whose length is not fixed", node)
             chars = []
             for i in range(n):
@@ -854,7 +911,7 @@ class Interp:
                 cur = self.eval(nxt, env)
                 continue
             # symbolic left operand
-            if isinstance(cur, SBool) and _is_pure_expr(nxt):
+            if isinstance(cur, SBool) and (self.spec_depth > 0 or _is_pure_expr(nxt)):
                 r = self.try_pure(nxt, env, t if is_and else z3.Not(t))
                 if r is not None:
                     rv = r[0]
@@ -888,6 +945,7 @@ class Interp:
             kept = list(st.pc[n_pc + 1:])
             return (v,)
         except (NeedFork, PyRaise, Infeasible):
+            st.notes.pop('spec_memo', None)      # values computed inside may rest on dropped definitions
             del st.taken[n_taken:]
             st.idx = n_idx
             del st.alts[n_alts:]
